@@ -304,7 +304,7 @@ def merge_bounded(shape, names, tier):
                     continue
                 if attempts.get(name, 0) >= 3 or time.time() - t0 > budget:
                     continue              # budget: at most 3 native replays per obligation, bounded wall time
-                v, model, dt = E.discharge(p.run, f, timeout_ms=3000)
+                v, model, dt = ckit.discharge(p.run, f, timeout_ms=3000)
                 if v != 'sat':
                     continue
                 attempts[name] = attempts.get(name, 0) + 1
@@ -949,10 +949,10 @@ def um_bounded(names, tier):
             for name, f in post(p):
                 if name not in want or name in found or attempts.get(name, 0) >= 3 or time.time() - t0 > 60:
                     continue
-                v, model, dt = E.discharge(p.run, f, timeout_ms=3000)
+                v, model, dt = ckit.discharge(p.run, f, timeout_ms=3000)
                 if v == 'unknown':
                     # the quantified axioms here are definitions (datastore contract); decide the ground part and let the replay arbitrate
-                    v, model, dt = E.discharge(p.run, f, nax=0, timeout_ms=5000)
+                    v, model, dt = ckit.discharge(p.run, f, nax=0, timeout_ms=5000)
                     if v == 'sat':
                         v = 'sat-ground'
                 if v not in ('sat', 'sat-ground'):
